@@ -62,17 +62,41 @@ class World(object):
         self.dc = self.app.data_collection
         self.kind = scn.kind
         self.shape = (2, 3) if scn.kind in ('image', 'profile') else (6,)
+        if getattr(scn, 'cube', False):
+            self.shape = (2, 3, 4)       # three axes: two displayed, one sliced
         self.pool = {'d0': self.fresh('d0'), 'd1': self.fresh('d1')}
         self.cids = {'x': self.pool['d0'].id['x'], 'y': self.pool['d0'].id['y'], 'z': self.pool['d1'].id['z']}
         self.dc.append(self.pool['d0'])
         self.dc.append(self.pool['d1'])
         self.kind = scn.kind
+        if getattr(scn, 'pregroup', False):
+            # a subset group that exists BEFORE the viewer is opened: its hub subscriptions precede the viewer's,
+            # so it hears about removed datasets first
+            self.dc.new_subset_group(subset_state=self.cids['x'] > 2.5, label='g')
         self.viewer = self.app.new_data_viewer(viewer_class(scn.kind))
+        self.watch()
         self.given = []          # model: datasets whose data layer is in the viewer
         self.orphans = []        # model: [dataset name, group] subset layers left after only the data layer was removed
         self.removed_groups = []
         self.extra = False       # extra component 'w' on d0
         self.derived = False     # derived component 'sum' on d0
+
+    def watch(self):
+        """What the layer artists see: a listener to every change of the viewer state (drawing itself is stubbed, so
+        the harness looks at the state at the moments an artist would draw it).  An image viewer must never show
+        them the same axis twice."""
+        if self.kind != 'image':
+            return
+        st = self.viewer.state
+        world = self
+
+        def seen(*args, **kwargs):
+            x, y = st.x_att, st.y_att
+            if x is not None and y is not None and x is y:
+                world.violations.append(('image-axes-seen-by-listeners', dict(x_att=x.label, y_att=y.label),
+                                         'two distinct pixel axes at every notification'))
+        self._seen = seen
+        st.add_global_callback(seen)
 
     def fresh(self, name):
         """A new dataset of the pool (not attached to any hub)."""
@@ -81,6 +105,11 @@ class World(object):
         if self.kind in ('image', 'profile'):
             # 2-d numeric images, one of them with (affine) world coordinates
             m = np.array([[2., 0., 1.], [0., 3., 2.], [0., 0., 1.]])
+            if len(self.shape) == 3:
+                m = np.array([[2., 0., 0., 1.], [0., 3., 0., 2.], [0., 0., 1.5, -1.], [0., 0., 0., 1.]])
+                if name == 'd0':
+                    return Data(label='d0', x=np.arange(24.).reshape(2, 3, 4), y=np.arange(24.)[::-1].reshape(2, 3, 4).copy())
+                return Data(label='d1', z=np.arange(24.).reshape(2, 3, 4) * 2, coords=AffineCoordinates(m))
             if name == 'd0':
                 return Data(label='d0', x=np.arange(6.).reshape(2, 3), y=np.arange(6.)[::-1].reshape(2, 3).copy())
             return Data(label='d1', z=np.arange(6.).reshape(2, 3) * 2, coords=AffineCoordinates(m))
@@ -134,7 +163,10 @@ def expected_choices(helper):
 
 class Scenario(object):
 
-    def __init__(self, kind, max_groups=1, comps=True, pickers=True, restore=True, layer_ops=True):
+    def __init__(self, kind, max_groups=1, comps=True, pickers=True, restore=True, layer_ops=True, pregroup=False,
+                 cube=False):
+        self.cube = cube
+        self.pregroup = pregroup
         self.layer_ops = layer_ops
         self.kind = kind
         self.max_groups = max_groups
@@ -289,6 +321,7 @@ class Scenario(object):
         orphan_idx = [[o[0], [i for i, g in enumerate(w.dc.subset_groups) if g is o[1]][0]] for o in w.orphans]
         w.close()
         w.app, w.viewer, w.dc = app2, v2, app2.data_collection
+        w.watch()
         for n, d in zip(names, w.dc):
             w.pool[n] = d
         # datasets outside the collection belong to the old session (and hub): the restored session gets new ones
@@ -514,10 +547,20 @@ def tiers(tier):
     if tier == 'quick':
         return [('base', Scenario('base', max_groups=2, comps=False), 7),
                 ('scatter', Scenario('scatter'), 3), ('histogram', Scenario('histogram'), 3),
-                ('image', Scenario('image'), 3), ('profile', Scenario('profile'), 3)]
+                ('image', Scenario('image'), 3), ('profile', Scenario('profile'), 3),
+                ('image-cube', Scenario('image', comps=False, restore=False, layer_ops=False, cube=True), 3),
+                ('base-pregroup', Scenario('base', max_groups=2, comps=False, pregroup=True), 5),
+                ('scatter-pregroup', Scenario('scatter', comps=False, pickers=False, restore=False, pregroup=True), 3),
+                ('image-pregroup', Scenario('image', comps=False, pickers=False, restore=False, pregroup=True), 3)]
     return [('base', Scenario('base', max_groups=2), 9),
             ('scatter', Scenario('scatter'), 4), ('histogram', Scenario('histogram'), 4),
-            ('image', Scenario('image'), 4), ('profile', Scenario('profile'), 4)]
+            ('image', Scenario('image'), 4), ('profile', Scenario('profile'), 4),
+            ('image-cube', Scenario('image', cube=True), 3), ('profile-cube', Scenario('profile', cube=True), 3),
+            ('base-pregroup', Scenario('base', max_groups=2, pregroup=True), 7),
+            ('scatter-pregroup', Scenario('scatter', pregroup=True), 3),
+            ('histogram-pregroup', Scenario('histogram', pregroup=True), 3),
+            ('image-pregroup', Scenario('image', pregroup=True), 3),
+            ('profile-pregroup', Scenario('profile', pregroup=True), 3)]
 
 
 def run(tier):
@@ -527,7 +570,7 @@ def run(tier):
     total = core.Result()
     cov = dict(states=0, transitions=0, traces_validated_against_impl=0, runs=[])
     for label, scn, depth in tiers(tier):
-        ex = hist.Explorer(scn, depth, PROP, label=label, lookahead=300 if label == 'base' else 40)
+        ex = hist.Explorer(scn, depth, PROP, label=label, lookahead=300 if label.startswith('base') else 40)
         res = ex.run()
         for v in res.violations:
             v['key'] = '%s|%s|%s' % (v['clause'], label, v['key'].split('|', 1)[1])
